@@ -72,6 +72,10 @@ def run(ctx):
             if trt == 'Neg':
                 cb, crets = (prune.closure_ret(F, e[2][1]) if is_call(e, 'AffTree::unary_op_into') and e[2][0] == SELF else (None, None))
                 ok = crets and len(crets) == 1 and op_call(crets[0], 'Neg') and crets[0][2][0][0] == 'param'
+                if not ok and is_call(e, 'AffTree::unary_op_into') and e[2][0] == SELF and s(e[2][1]) == ('fn', 'std::ops::Neg::neg'):
+                    # the operator itself handed over as the function value (`unary_op_into(<AffFunc as Neg>::neg)`): unary_op_into applies
+                    # an AffFunc -> AffFunc function, so this is Neg for AffFunc
+                    ok = True
                 (ctx.ok if ok else ctx.bad)(rule, site, 'every terminal t becomes -t' if ok else 'Neg for AffTree does not negate each terminal: %s' % fmt(e), b.span)
                 continue
             # (a) forwarding
@@ -90,6 +94,9 @@ def run(ctx):
                 bb, t = gci[0]
                 a = R.call_args(bb)
                 schema = schema_of(F, t['func']['generic_args'])
+                if not schema and len(a) > 3 and a[3][0] == 'agg' and isinstance(a[3][1], tuple):
+                    # the call sits in a helper that is generic over the schema: the schema is the value handed down
+                    schema = a[3][1][1]
                 ok_args = a[0] == RHS and a[1] == SELF and any(is_call(x, 'Tree::terminal_indices') and x[2][0] == ('field', SELF, 'tree') for x in walk(a[2]))
                 if not ok_args:
                     ctx.bad('C07.R2', site, 'composition must rewrite self at all of its terminals with rhs as the operand tree; got %s' % [fmt(x)[:60] for x in a[:3]], t['span'])
